@@ -50,7 +50,7 @@ impl<'a> Tape<'a> {
     }
 }
 
-pub const POOL: &[char] = &['a', 'b', 'c', ',', '(', ')', 'é', '→', '𝄞'];
+pub const POOL: &[char] = &['a', 'b', 'c', ',', '(', ')', 'é', 'ü', '→', '⇒', '𝄞'];
 pub const FOREIGN: char = 'z';
 
 #[derive(Clone, Debug)]
@@ -493,7 +493,8 @@ impl<'t, 'd> GGen<'t, 'd> {
             15 => G::Memo(b(self.gen(d, guarded))),
             16 => {
                 let a = self.gen(d, guarded);
-                let w = match self.t.pick(8) {
+                let w = match self.t.pick(if self.cfg.ext { 10 } else { 8 }) {
+                    8 | 9 => Wrap::ExtOf,
                     0 => Wrap::Boxed,
                     1 => Wrap::BoxedTwice,
                     2 => Wrap::RcW,
